@@ -126,6 +126,8 @@ def show(t, depth=0) -> str:
     return f"{s(a[0])}.{a[1]}"
   if o == "tuple":
     return "(" + ", ".join(s(x) for x in a) + ")"
+  if o == "ret":
+    return f"{a[0]}=>{s(a[1])}"
   if o == "unk":
     return f"?{a[0]}"
   if o == "lit":
